@@ -1,8 +1,227 @@
 (* C10 — exported theorems only: each is closed by [exact] and followed by Print Assumptions. *)
 From Coq Require Import List ZArith Bool.
-From Verif Require Import Gen.Gen_consts C10.Model C10.Spec C10.Proofs.
+From Verif Require Import Gen.Gen_consts C10.Model C10.Spec
+  C10.Proofs_Pick C10.Proofs_Adjust C10.Proofs_Budget C10.Proofs.
+Import ListNotations.
 Open Scope Z_scope.
 
-Theorem c10_quota_min : forall b, beMinQuota <= quota_target b.
-Proof. exact quota_target_min. Qed.
-Print Assumptions c10_quota_min.
+(* ======================================================================== budget *)
+
+(* The budget is capacity * threshold / 100 minus non-BE pods, non-BE host applications and
+   max(measured system use, node reservation), floored by capacity * min / 100.  Hypothesis: the
+   float64 round trip milli -> cores -> milli of the reservation loses at most one milli-CPU
+   (decided per case by [rt_ok]); where it loses one, the reservation counts one milli less. *)
+Theorem c10_budget_formula : forall i, rt_ok i = true -> budget_holds i (budget i).
+Proof. exact budget_formula. Qed.
+Print Assumptions c10_budget_formula.
+
+Theorem c10_budget_formula_exact : forall i, rt_exact i = true -> budget i = budget_spec i.
+Proof. exact budget_formula_exact. Qed.
+Print Assumptions c10_budget_formula_exact.
+
+(* the system term is at least the node reservation (minus the round-trip loss) *)
+Theorem c10_budget_system_floor : forall i, rt_ok i = true -> node_reserved i - 1 <= sys_milli i.
+Proof. exact sys_at_least_reserved. Qed.
+Print Assumptions c10_budget_system_floor.
+
+(* The budget does not grow when any pod or host application uses more and the rest of the node
+   does not use less (same node, same configuration). *)
+Theorem c10_budget_antitone : forall i i',
+  rt_milli (node_reserved i) <= node_reserved i -> grows i i' -> budget i' <= budget i.
+Proof. exact budget_antitone. Qed.
+Print Assumptions c10_budget_antitone.
+
+(* ... and it is antitone in each of the three consumption figures it subtracts *)
+Theorem c10_budget_antitone_figures : forall i cap thr mn p h s p' h' s',
+  budget i = budget_of (b_cap i) (b_thr i) (b_min i) (to_milli (pods_nonbe (b_pods i)))
+                       (to_milli (hosts_nonbe (b_hosts i))) (sys_milli i)
+  /\ (p <= p' -> h <= h' -> s <= s' -> budget_of cap thr mn p' h' s' <= budget_of cap thr mn p h s).
+Proof. exact (fun i cap thr mn p h s p' h' s' => conj (budget_of_eq i) (budget_of_antitone cap thr mn p h s p' h' s')). Qed.
+Print Assumptions c10_budget_antitone_figures.
+
+(* the harness' perturbations 1..3 are instances of [grows] *)
+Theorem c10_budget_perturb_grows : forall kind idx d i, 1 <= kind <= 3 -> 0 <= d -> grows i (perturb kind idx d i).
+Proof. exact perturb_grows. Qed.
+Print Assumptions c10_budget_perturb_grows.
+
+(* without the round-trip hypothesis the exact formula is false of the faithful model *)
+Theorem c10_budget_exact_refuted : exists i, budget i = budget_spec i + 1.
+Proof. exact budget_exact_refuted. Qed.
+Print Assumptions c10_budget_exact_refuted.
+
+Theorem c10_budget_decided : forall i b, budget_holdsb i b = true <-> budget_holds i b.
+Proof. exact budget_holdsb_spec. Qed.
+Print Assumptions c10_budget_decided.
+
+(* the decision procedure the check runs on the implementation, run on the model *)
+Theorem c10_budget_model : forall k idx d i, rt_ok i = true -> k <> 4 ->
+  budget_code k idx d i [budget i; budget (perturb k idx d i)] = 0.
+Proof. exact budget_code_model. Qed.
+Print Assumptions c10_budget_model.
+
+(* ======================================================================== pick *)
+
+Theorem c10_pick_distinct : forall n ps, NoDup (map cpu ps) -> NoDup (pick n ps).
+Proof. exact pick_distinct. Qed.
+Print Assumptions c10_pick_distinct.
+
+Theorem c10_pick_subset : forall n ps, NoDup (map cpu ps) -> incl (pick n ps) (map cpu ps).
+Proof. exact pick_subset. Qed.
+Print Assumptions c10_pick_subset.
+
+Theorem c10_pick_count_le : forall n ps, NoDup (map cpu ps) -> lenZ (pick n ps) <= Z.max n 0.
+Proof. exact pick_count_le. Qed.
+Print Assumptions c10_pick_count_le.
+
+Theorem c10_pick_exact : forall n ps, NoDup (map cpu ps) -> 0 <= n <= lenZ ps -> lenZ (pick n ps) = n.
+Proof. exact pick_exact. Qed.
+Print Assumptions c10_pick_exact.
+
+(* the fuel of the two cyclic loops is never exhausted: any larger fuel gives the same list *)
+Theorem c10_pick_fuel_irrelevant : forall f n ps, (pick_fuel n <= f)%nat -> pick_with f n ps = pick n ps.
+Proof. exact pick_fuel_irrelevant. Qed.
+Print Assumptions c10_pick_fuel_irrelevant.
+
+Theorem c10_pick_decided : forall n ps out, pick_code n ps out = 0 <-> pick_holds n ps out.
+Proof. exact pick_code_spec. Qed.
+Print Assumptions c10_pick_decided.
+
+Theorem c10_pick_model : forall n ps, NoDup (map cpu ps) -> pick_code n ps (pick n ps) = 0.
+Proof. exact pick_code_model. Qed.
+Print Assumptions c10_pick_model.
+
+(* ======================================================================== cpuset *)
+
+(* target = min(max(ceil(budget/1000), 2), |old| + ceil(nprocs/10)); the literals are the ones of
+   the property text, the model uses beMinCPUSetCores / beMaxIncreaseCPUPercent *)
+Theorem c10_count_formula : forall b o np,
+  target_count b o np = Z.min (Z.max (ceil_div b 1000) 2) (o + ceil_div np 10).
+Proof. exact target_count_eq. Qed.
+Print Assumptions c10_count_formula.
+
+Theorem c10_count_bounds : forall b o np,
+  target_count b o np <= o + ceil_div np 10
+  /\ target_count b o np <= Z.max (ceil_div b 1000) 2
+  /\ (2 <= o + ceil_div np 10 -> 2 <= target_count b o np)
+  /\ (Z.max (ceil_div b 1000) 2 <= o + ceil_div np 10 -> target_count b o np = Z.max (ceil_div b 1000) 2).
+Proof. exact target_count_bounds. Qed.
+Print Assumptions c10_count_bounds.
+
+(* at least two whenever the besteffort cgroup currently has a cpu or the node has more than ten *)
+Theorem c10_count_at_least_two : forall b o np, 0 <= o -> 0 <= np ->
+  (1 <= o /\ 1 <= np) \/ 10 < np -> 2 <= target_count b o np.
+Proof. exact target_count_two. Qed.
+Print Assumptions c10_count_at_least_two.
+
+Theorem c10_count_lower_refuted : exists b o np, 0 <= o /\ 0 <= np /\ target_count b o np < 2.
+Proof. exact count_lower_refuted. Qed.
+Print Assumptions c10_count_lower_refuted.
+
+(* No cpu handed to BE is owned by an LSE pod, reserved for the node or exclusive to system QoS,
+   and every one exists.  Hypotheses: processor ids are distinct; no cpu of an LSE pod is also
+   listed by a later pod of another class ([consistent]). *)
+Theorem c10_no_protected : forall i be c, adjust_wf i -> be_cpuset i = Some be -> In c be ->
+  In c (map cpu (a_procs i)) /\ lse_owned (a_pods i) c = false
+  /\ ~ In c (a_reserved i) /\ ~ In c (a_sysexcl i).
+Proof. exact no_protected. Qed.
+Print Assumptions c10_no_protected.
+
+(* the list handed to the cgroup writer: distinct, unprotected, existing, at most the target,
+   exactly the target when that many unprotected cpus exist *)
+Theorem c10_be_cpuset : forall i be, adjust_wf i -> be_cpuset i = Some be ->
+  NoDup be /\ unprotected_existing i be /\ lenZ be <= target i
+  /\ (target i <= lenZ (free_cpus i) -> lenZ be = target i).
+Proof. exact be_cpuset_spec. Qed.
+Print Assumptions c10_be_cpuset.
+
+(* main theorem: the cpuset.cpus files after adjustByCPUSet *)
+Theorem c10_adjust_holds : forall i, adjust_wf i -> adjust_holds i (adjust i).
+Proof. exact adjust_holds_model. Qed.
+Print Assumptions c10_adjust_holds.
+
+Theorem c10_adjust_decided : forall i o, adjust_code i o = 0 <-> adjust_holds i o.
+Proof. exact adjust_code_spec. Qed.
+Print Assumptions c10_adjust_decided.
+
+Theorem c10_adjust_model : forall i, adjust_wf i -> adjust_code i (adjust i) = 0.
+Proof. exact adjust_code_model. Qed.
+Print Assumptions c10_adjust_model.
+
+(* totality on the degenerate input: with no eligible cpu the files keep their contents (the
+   implementation used to divide by zero here, fixed in 1908b1e) *)
+Theorem c10_total : forall i, lsr_pool i = [] -> ls_pool i = [] ->
+  adjust i = (to_set (a_old i), to_set (a_old i), to_set (a_old i)).
+Proof. exact adjust_no_eligible. Qed.
+Print Assumptions c10_total.
+
+(* calcBECPUSet (static kubelet policy: besteffort and pod level) never contains a protected cpu,
+   whatever the pod order *)
+Theorem c10_recover_no_protected : forall i, unprotected_existing i (recover_set i).
+Proof. exact recover_set_ok. Qed.
+Print Assumptions c10_recover_no_protected.
+
+(* FINDING: without [consistent] the sentence is false of the faithful model (and of the code) *)
+Theorem c10_lse_overwritten_refuted :
+  exists i, NoDup (map cpu (a_procs i)) /\
+            exists c, In c (snd (adjust i)) /\ lse_owned (a_pods i) c = true.
+Proof. exact lse_overwritten_refuted. Qed.
+Print Assumptions c10_lse_overwritten_refuted.
+
+Theorem c10_lse_order_dependent : adjust w_overwritten <> adjust w_ordered.
+Proof. exact lse_order_dependent. Qed.
+Print Assumptions c10_lse_order_dependent.
+
+(* ======================================================================== quota *)
+
+(* quota = max(budget * period / 1000, beMinQuota) unless the change is inside the bypass window
+   (file untouched) or above the step limit (current + step) *)
+Theorem c10_quota : forall b cap cur, quota_holds b cap cur (quota_new b cap cur).
+Proof. exact quota_holds_model. Qed.
+Print Assumptions c10_quota.
+
+Theorem c10_quota_floor : forall b,
+  quota_target b = Z.max (Z.quot (b * DefaultCPUCFSPeriod) 1000) beMinQuota /\ beMinQuota <= quota_target b.
+Proof. exact (fun b => conj eq_refl (quota_target_floor b)). Qed.
+Print Assumptions c10_quota_floor.
+
+Theorem c10_quota_bound : forall b cap cur, 0 <= cap -> quota_new b cap cur <= Z.max (quota_target b) cur.
+Proof. exact quota_new_bound. Qed.
+Print Assumptions c10_quota_bound.
+
+Theorem c10_quota_decided : forall b cap cur obs, quota_code b cap cur obs = 0 <-> quota_holds b cap cur obs.
+Proof. exact quota_code_spec. Qed.
+Print Assumptions c10_quota_decided.
+
+Theorem c10_quota_model : forall b cap cur, quota_code b cap cur (quota_new b cap cur) = 0.
+Proof. exact quota_code_model. Qed.
+Print Assumptions c10_quota_model.
+
+(* ======================================================================== non-vacuity *)
+
+Example c10_nv_wf :
+  let i := mkA 2000 false [0; 1] w_procs [mkCpod Q_LSR [2; 3]; mkCpod Q_LSE [2; 3]] [] [] in
+  adjust_wf i /\ be_cpuset i = Some [0; 1] /\ adjust_wf w_ordered.
+Proof.
+  cbv zeta. split; [split; [apply nodupb_spec|]|split; [|split; [apply nodupb_spec|]]];
+    vm_compute; reflexivity.
+Qed.
+
+Example c10_nv_rt : rt_ok w_rt = true /\ rt_exact w_rt = false
+                    /\ rt_exact (mkB 8000 7000 0 100 None 0 [] []) = true.
+Proof. vm_compute. repeat split; reflexivity. Qed.
+
+Example c10_nv_grows :
+  grows (mkB 8000 8000 0 65 None 200 [mkPod Q_LS false true true 64] [])
+        (mkB 8000 8000 0 65 None 264 [mkPod Q_LS false true true 128] [])
+  /\ budget (mkB 8000 8000 0 65 None 264 [mkPod Q_LS false true true 128] [])
+     < budget (mkB 8000 8000 0 65 None 200 [mkPod Q_LS false true true 64] []).
+Proof.
+  split.
+  - unfold grows. cbn [b_cap b_alloc b_anno b_thr b_min b_pods b_hosts].
+    repeat (split; [reflexivity|]). split; [|split; [constructor|vm_compute; discriminate]].
+    constructor; [|constructor]. unfold pod_le. cbn. repeat split; discriminate.
+  - vm_compute. reflexivity.
+Qed.
+
+Example c10_nv_pick : pick 3 w_procs = [0; 1; 2] /\ NoDup (map cpu w_procs).
+Proof. split; [vm_compute; reflexivity | apply nodupb_spec; vm_compute; reflexivity]. Qed.
